@@ -8,7 +8,7 @@
    roundReceived fields of a stored event, [lt_memo] the timestamp cache used by frames. *)
 From Coq Require Import ZArith List Bool Sorted Permutation.
 From V Require Import Model.ZMap Model.Quorum Model.HgImpl Proofs.AdmissionProofs Proofs.BlockInv
-  Proofs.OrderSort Proofs.OrderFrames Proofs.OrderProofs.
+  Proofs.OrderSort Proofs.OrderFrames Proofs.OrderProofs Proofs.Static Proofs.RoundReceived.
 Import ListNotations.
 Open Scope Z_scope.
 
@@ -171,7 +171,19 @@ Theorem C04_block_respects_ancestry : forall all st d i j a b,
 Proof. exact (fun all st d i j a b R => delivered_block_respects_ancestry all st d i j a b (C04_invariant all st R)). Qed.
 Print Assumptions C04_block_respects_ancestry.
 
-(* STILL TO BE PROVED (kept visible, asserted nowhere): round-received is monotone along ancestry.
+(* round-received is monotone along ancestry: PROVED for static membership (no attempted event carries an
+   accepted internal transaction), by the famous-witness argument: an event seen by all famous
+   witnesses of round i has all its ancestors seen by them too, and the first such round is what
+   round-received means (Proofs/RoundReceived.v: rr_spec_run) *)
+Theorem C04_rr_monotone_static : forall genesis all self_ oracle_ ops a b ea eb ra rb,
+  ids_determine all -> no_accept all -> Forall (hop_ok all) ops ->
+  let st := hrun (init_hg self_ genesis oracle_) ops in
+  anc st a b -> get_event st a = Some ea -> get_event st b = Some eb ->
+  ev_rr ea = Some ra -> ev_rr eb = Some rb -> ra <= rb.
+Proof. exact rr_monotone_oanc_hrun. Qed.
+Print Assumptions C04_rr_monotone_static.
+
+(* STILL TO BE PROVED IN GENERAL (dynamic membership; kept visible, asserted nowhere): round-received is monotone along ancestry.
    It needs the famous-witness argument (an event seen by all famous witnesses of round i has all
    its ancestors seen by them too, and ancestors are not received later).  Together with the
    theorems above and C02_rr_increasing it gives the full statement below; the oracle of the check
